@@ -244,6 +244,92 @@ mod h {
 }
 '''
 
+import os
+import re as _re
+import subprocess
+
+M64 = (1 << 64) - 1
+
+
+def vm_py(op, l, r):
+    """FuelVM outcome under default flags (python twin of spec/vm_alu.rs): None = panic"""
+    if op == "add":
+        return l + r if l + r <= M64 else None
+    if op == "sub":
+        return l - r if l >= r else None
+    if op == "mul":
+        return l * r if l * r <= M64 else None
+    if op == "div":
+        return l // r if r else None
+    if op == "mod":
+        return l % r if r else None
+    if op == "and":
+        return l & r
+    if op == "or":
+        return l | r
+    if op == "xor":
+        return l ^ r
+    if op == "lsh":
+        return (l << r) & M64 if r < 64 else 0
+    if op == "rsh":
+        return l >> r if r < 64 else 0
+    if op == "eq":
+        return int(l == r)
+    if op == "lt":
+        return int(l < r)
+    if op == "gt":
+        return int(l > r)
+    raise KeyError(op)
+
+
+def run_real_const_folding(ir_text):
+    """run the REAL const-folding pass: sway-ir's own `opt` binary built from the current /repo tree"""
+    env = dict(os.environ, CARGO_NET_OFFLINE="true")
+    b = subprocess.run(["cargo", "build", "-p", "sway-ir", "--bin", "opt", "--offline", "-j", "8"], cwd=vf.REPO, capture_output=True, text=True, env=env, timeout=3000)
+    if b.returncode != 0:
+        return None, "could not build sway-ir opt: " + b.stderr[-500:]
+    os.makedirs(vf.BUILD, exist_ok=True)
+    f = os.path.join(vf.BUILD, "replay-%d.ir" % os.getpid())
+    open(f, "w").write(ir_text)
+    r = subprocess.run([os.path.join(vf.REPO, "target/debug/opt"), "const-folding", "-i", f], capture_output=True, text=True, timeout=120)
+    return r.stdout, r.stderr[-500:]
+
+
+def replay_fold(ob, cex):
+    """replay a counterexample of a bin_*/useless_*/cmp obligation on the real sway-ir"""
+    vals = [c["le"] for c in cex]
+    m = _re.match(r"(bin|useless)_([a-z]+)", ob.name)
+    if m:
+        op = m.group(2)
+        l, r = vals[0], vals[1]
+        body = "l = const u64 %d\n        r = const u64 %d\n        res = %s l, r\n        ret u64 res" % (l, r, op)
+        ty = "u64"
+    elif ob.name == "cmp_uint":
+        l, r = vals[0], vals[1]
+        outs = {}
+        for pred in ("eq", "lt", "gt"):
+            ir = "script {\n    entry fn main() -> bool {\n        entry():\n        l = const u64 %d\n        r = const u64 %d\n        res = cmp %s l r\n        ret bool res\n    }\n}\n" % (l, r, pred)
+            out, err = run_real_const_folding(ir)
+            mm = _re.search(r"const bool (true|false)", out or "")
+            outs[pred] = {"folded_to": mm.group(1) if mm else None, "fuelvm": bool(vm_py(pred, l, r))}
+        bad = [p for p, o in outs.items() if o["folded_to"] is not None and (o["folded_to"] == "true") != o["fuelvm"]]
+        return {"driver": "sway-ir opt const-folding (real pass)", "operands": [l, r], "per_predicate": outs, "confirms": bool(bad), "mismatching_predicates": bad}
+    else:
+        return {"note": "no real-code driver for this obligation"}
+    ir = "script {\n    entry fn main() -> %s {\n        entry():\n        %s\n    }\n}\n" % (ty, body)
+    out, err = run_real_const_folding(ir)
+    if out is None:
+        return {"error": err}
+    still = _re.search(r"= %s " % op, out) is not None
+    mm = _re.search(r"const u64 (\d+)\s*\n\s*ret u64", out)
+    folded = None if still else (int(mm.group(1)) if mm else "?")
+    vm = vm_py(op, l, r)
+    confirms = (folded is not None) and (vm is None or folded != vm)
+    return {"driver": "sway-ir opt const-folding (real pass)", "ir": ir, "real_output": out[-600:], "folded_to": folded,
+            "fuelvm_result": "panic (revert)" if vm is None else vm, "confirms": confirms,
+            "note": "for useless_* obligations the operands are run-time values; the replay shows the fold of the all-constant instance" if ob.name.startswith("useless") else ""}
+
+
 OPS = ["Add", "Sub", "Mul", "Div", "And", "Or", "Xor", "Mod", "Rsh", "Lsh"]
 Z3 = {"Mul", "Div", "Mod"}
 
@@ -259,7 +345,7 @@ def build(tier, prop_functional="C06"):
         z = "#[kani::solver(z3)] " if op in Z3 else ""
         hs.append("#[kani::proof] %sfn bin_%s_sound() { sound(BinaryOpKind::%s) }" % (z, op.lower(), op))
         hs.append("#[kani::proof] %sfn bin_%s_complete() { complete(BinaryOpKind::%s) }" % (z, op.lower(), op))
-        obs.append(vf.Ob("bin_%s_sound" % op.lower(), "C06", panic_prop="C17",
+        obs.append(vf.Ob("bin_%s_sound" % op.lower(), "C06", panic_prop="C17", inputs=["l", "r"], replay=replay_fold,
                          what="combine_binary_op (%s, Uint, Uint): Some(v) ==> VM yields v, no panic; all u64 x u64, all $flag" % op))
         obs.append(vf.Ob("bin_%s_complete" % op.lower(), "C06", panic_prop="C17", info_only=True,
                          what="coverage: (%s, Uint, Uint) folds whenever the VM result is defined" % op))
@@ -270,10 +356,11 @@ def build(tier, prop_functional="C06"):
     obs += [
         vf.Ob("un_not_w64", "C06", panic_prop="C17", what="combine_unary_op (Not, Uint) on u64: folded value == VM NOT"),
         vf.Ob("un_not_narrow", "C06", panic_prop="C17", known="D3", what="combine_unary_op (Not, Uint) on widths != 64: folded value == VM NOT"),
-        vf.Ob("cmp_uint", "C06", panic_prop="C17", what="combine_cmp on Uint: Equal/LessThan/GreaterThan == VM EQ/LT/GT"),
+        vf.Ob("cmp_uint", "C06", panic_prop="C17", inputs=["l", "r"], replay=replay_fold, what="combine_cmp on Uint: Equal/LessThan/GreaterThan == VM EQ/LT/GT"),
         vf.Ob("cbr_destination", "C03", panic_prop="C17", what="combine_cbr: constant condition keeps true_block iff the constant is true"),
     ]
-    u = vf.KaniUnit("irfold_u64", {"src/lib.rs": src, "src/vm_alu.rs": open(vf.ROOT + "/spec/vm_alu.rs").read()}, obs, timeout_s=120, jobs=12)
+    u = vf.KaniUnit("irfold_u64", {"src/lib.rs": src, "src/vm_alu.rs": open(vf.ROOT + "/spec/vm_alu.rs").read()}, obs, timeout_s=120, jobs=12,
+                    auto_files=[F])
     u.fragments = [vf.frag_record(fr[k]) for k in ("bin", "un", "cmp", "useless", "cbr", "lower", "ConstantValue", "ConstantContent", "BinaryOpKind", "UnaryOpKind", "Predicate")]
     u.rewrites = [{"rule": "R0", "before": "match expressions copied verbatim into wrapper fns", "after": "", "times": 6},
                   {"rule": "R1", "before": "derives of ConstantValue/ConstantContent/BinaryOpKind/UnaryOpKind/Predicate", "after": "plain derives", "times": 5}]
@@ -431,7 +518,7 @@ def build_ceval(tier):
     src = src.replace("@CE_HARNESSES@", "\n    ".join(hs))
     obs += [vf.Ob("ce_not_w64", "C06", panic_prop="C17", what="const_eval_intrinsic Not on u64: value == VM NOT"),
             vf.Ob("ce_not_narrow", "C06", panic_prop="C17", known="D3", what="const_eval_intrinsic Not on u8/u16/u32: value == VM NOT")]
-    u = vf.KaniUnit("ceval_u64", {"src/lib.rs": src, "src/vm_alu.rs": open(vf.ROOT + "/spec/vm_alu.rs").read()}, obs, timeout_s=120, jobs=12)
+    u = vf.KaniUnit("ceval_u64", {"src/lib.rs": src, "src/vm_alu.rs": open(vf.ROOT + "/spec/vm_alu.rs").read()}, obs, timeout_s=120, jobs=12, auto_files=[CE])
     u.fragments = [vf.frag_record(fr[k]) for k in fr]
     u.rewrites = [{"rule": "R0", "before": "inner matches of const_eval_intrinsic copied verbatim into wrapper fns", "after": "", "times": 7}]
     u.assumptions = ["Type shimmed to its integer width; ConstantContent/ConstantValue reduced to the Uint/Bool variants; Intr = (kind, span)",
